@@ -40,10 +40,103 @@ Lemma to_pos_true inp file (p : pr) :
   mkPos (fst (spec_line_col inp (pair_start p))) (snd (spec_line_col inp (pair_start p))) file false.
 Proof. intros H. unfold to_pos. rewrite (line_col_true _ _ H). reflexivity. Qed.
 
-(** the specification's line/column really is "number of line terminators before, scalar values since":
-    walking to that line and column arrives at the offset *)
-Lemma text_at_spec_line_col_zero inp : text_at inp 0 0 = Some inp.
-Proof. reflexivity. Qed.
+(** the specification's (line, column) of an offset leads back to that offset: [text_at] inverts
+    [spec_line_col] wherever a token can start (not on the LF of a CR LF, not past the end) *)
+Lemma goto_col_snoc : forall n ls c r,
+  goto_col ls n = Some (c :: r) -> is_lt c = false -> goto_col ls (S n) = Some r.
+Proof.
+  induction n as [|n IH]; intros ls c r H Hc.
+  - cbn in H. inversion H; subst. cbn. rewrite Hc. reflexivity.
+  - destruct ls as [|x ls']; [discriminate|]. cbn [goto_col] in H |- *.
+    destruct (is_lt x); [discriminate|]. apply (IH _ _ _ H Hc).
+Qed.
+
+(** from a line start [ls], [n] non-terminator characters lead to an LF (or CR LF): the next line starts after it *)
+Lemma goto_line_lf : forall n ls r k,
+  goto_col ls n = Some (10 :: r) -> goto_line ls (S k) = goto_line r k.
+Proof.
+  induction n as [|n IH]; intros ls r k H.
+  - cbn in H. inversion H; subst. reflexivity.
+  - destruct ls as [|x ls']; [discriminate|]. cbn [goto_col] in H.
+    destruct (is_lt x) eqn:Hx; [discriminate|].
+    unfold is_lt in Hx. apply orb_false_iff in Hx. destruct Hx as [H10 H13].
+    cbn [goto_line]. rewrite H10, H13. apply (IH _ _ k H).
+Qed.
+
+Lemma goto_line_crlf : forall n ls r k,
+  goto_col ls n = Some (13 :: 10 :: r) -> goto_line ls (S k) = goto_line r k.
+Proof.
+  induction n as [|n IH]; intros ls r k H.
+  - cbn in H. inversion H; subst. reflexivity.
+  - destruct ls as [|x ls']; [discriminate|]. cbn [goto_col] in H.
+    destruct (is_lt x) eqn:Hx; [discriminate|].
+    unfold is_lt in Hx. apply orb_false_iff in Hx. destruct Hx as [H10 H13].
+    cbn [goto_line]. rewrite H10, H13. apply (IH _ _ k H).
+Qed.
+
+Definition not_at_terminator (t : str) : Prop := match t with c :: _ => is_lt c = false | [] => True end.
+
+Lemma walk : forall n off t line col ls,
+  (off <= n)%nat ->
+  no_lone_cr t = true ->
+  goto_col ls (N.to_nat col) = Some t ->
+  (off <= length t)%nat ->
+  not_at_terminator (skipn off t) ->
+  exists ls', goto_line ls (N.to_nat (fst (spec_line_col_from t off line col) - line)) = Some ls'
+              /\ goto_col ls' (N.to_nat (snd (spec_line_col_from t off line col))) = Some (skipn off t)
+              /\ line <= fst (spec_line_col_from t off line col).
+Proof.
+  induction n as [|n IH]; intros off t line col ls Hn Hcr Hcol Hlen Hnt.
+  - assert (off = 0%nat) by lia. subst off. cbn [spec_line_col_from fst snd skipn].
+    exists ls. rewrite N.sub_diag. split; [reflexivity|]. split; [exact Hcol|lia].
+  - destruct off as [|o].
+    { cbn [spec_line_col_from fst snd skipn]. exists ls. rewrite N.sub_diag. split; [reflexivity|]. split; [exact Hcol|lia]. }
+    destruct t as [|c r]; [cbn in Hlen; lia|].
+    cbn [spec_line_col_from skipn]. cbn [length] in Hlen.
+    destruct (N.eqb_spec c 10) as [->|Hn10].
+    + (* LF *)
+      assert (Hcr' : no_lone_cr r = true) by (cbn [no_lone_cr] in Hcr; exact Hcr).
+      destruct (IH o r (line + 1) 0 r) as [ls' [H1 [H2 H3]]]; try assumption; try lia; [reflexivity|].
+      exists ls'. split; [|split; [exact H2|lia]].
+      replace (N.to_nat (fst (spec_line_col_from r o (line + 1) 0) - line))
+        with (S (N.to_nat (fst (spec_line_col_from r o (line + 1) 0) - (line + 1)))) by lia.
+      rewrite (goto_line_lf _ _ _ _ Hcol). exact H1.
+    + destruct (N.eqb_spec c 13) as [->|Hn13].
+      * (* CR: followed by LF *)
+        cbn [no_lone_cr] in Hcr. change (13 =? 13) with true in Hcr. cbn iota in Hcr.
+        destruct r as [|d r']; [discriminate|].
+        apply andb_true_iff in Hcr. destruct Hcr as [Hd Hcr'].
+        apply N.eqb_eq in Hd. subst d. rewrite N.eqb_refl.
+        destruct o as [|o'].
+        { (* offset points at the LF of a CR LF: excluded *) cbn [skipn] in Hnt. cbn in Hnt. discriminate. }
+        cbn [spec_line_col_from skipn]. change (10 =? 10) with true. cbn iota.
+        assert (Hcr'' : no_lone_cr r' = true) by (cbn [no_lone_cr] in Hcr'; exact Hcr').
+        cbn [length] in Hlen.
+        destruct (IH o' r' (line + 1) 0 r') as [ls' [H1 [H2 H3]]]; try assumption; try lia; [reflexivity|].
+        exists ls'. split; [|split; [exact H2|lia]].
+        replace (N.to_nat (fst (spec_line_col_from r' o' (line + 1) 0) - line))
+          with (S (N.to_nat (fst (spec_line_col_from r' o' (line + 1) 0) - (line + 1)))) by lia.
+        rewrite (goto_line_crlf _ _ _ _ Hcol). exact H1.
+      * (* ordinary character *)
+        assert (Hc : is_lt c = false).
+        { unfold is_lt. apply orb_false_iff. split; apply N.eqb_neq; assumption. }
+        assert (Hcr' : no_lone_cr r = true).
+        { cbn [no_lone_cr] in Hcr. destruct (N.eqb_spec c 13); [contradiction|exact Hcr]. }
+        assert (Hcol' : goto_col ls (N.to_nat (col + 1)) = Some r).
+        { replace (N.to_nat (col + 1)) with (S (N.to_nat col)) by lia. apply (goto_col_snoc _ _ _ _ Hcol Hc). }
+        destruct (IH o r line (col + 1) ls) as [ls' [H1 [H2 H3]]]; try assumption; try lia.
+        exists ls'. split; [exact H1|split; [exact H2|exact H3]].
+Qed.
+
+Theorem text_at_spec_line_col inp off :
+  no_lone_cr inp = true -> (N.to_nat off <= length inp)%nat ->
+  not_at_terminator (skipn (N.to_nat off) inp) ->
+  text_at inp (fst (spec_line_col inp off)) (snd (spec_line_col inp off)) = Some (skipn (N.to_nat off) inp).
+Proof.
+  intros Hcr Hlen Hnt. unfold text_at, spec_line_col.
+  destruct (walk (N.to_nat off) (N.to_nat off) inp 0 0 inp (le_n _) Hcr eq_refl Hlen Hnt) as [ls' [H1 [H2 _]]].
+  rewrite N.sub_0_r in H1. rewrite H1. exact H2.
+Qed.
 
 (** ** witnesses *)
 Definition w_lone_cr : str := s "query Q {" ++ [13] ++ s "  x" ++ [13] ++ s "}".
